@@ -25,7 +25,7 @@ SH = "http://www.w3.org/ns/shacl#"
 
 @st.composite
 def cases(draw):
-    g = draw(gg.general(inst_props=(RDF_TYPE, RDF_TYPE, RDF_TYPE, "http://ex.org/isA")))
+    g = draw(gg.general(inst_props=(RDF_TYPE, RDF_TYPE, RDF_TYPE, "http://ex.org/isA"), quirks=draw(gg.quirk_set(one_in=4))))
     cfg = draw(gg.switches())
     cfg.update(draw(gg.harmless_extras()))
     target = draw(common.target_spec(g))
